@@ -1114,6 +1114,42 @@ func propMachine(t *rapid.T) {
 			scramble(src)
 			m.mutations++
 		},
+		"recover-key": func(t *rapid.T) {
+			// keys also come out of signature recovery; the degenerate relation s*R = e*G (Q = O) must not yield a key
+			k := gen.NonZero256(t, ref.N, "k")
+			R := ref.BaseMul(k)
+			r := ref.Mod(R.X, ref.N)
+			si := m.sslot("s")
+			sv := m.ms[si]
+			digest := gen.Bytes(t, 32, 32, "digest")
+			degenerate := rapid.IntRange(0, 2).Draw(t, "degenerate") == 0
+			if degenerate {
+				digest = ref.B32(ref.MulM(sv, k, ref.N))
+			}
+			v := byte(R.Y.Bit(0))
+			if R.X.Cmp(ref.N) >= 0 {
+				v |= 2
+			}
+			if rapid.IntRange(0, 5).Draw(t, "other-id") == 0 {
+				v = byte(rapid.IntRange(0, 5).Draw(t, "v"))
+			}
+			m.log("recover-key s%d (=%x) k=%x degenerate=%v v=%d", si, sv, k, degenerate, v)
+			want, ok := ref.ECDSARecover(digest, r, sv, int(v))
+			if v > 3 {
+				ok = false
+			}
+			var key *secec.PublicKey
+			var err error
+			if p := lib.Catch(func() { key, err = secec.RecoverPublicKey(digest, lib.Sc(r), m.scs[si], v) }); p != nil {
+				m.fatalf("RecoverPublicKey panicked: %v", p)
+			}
+			if ok != (err == nil) || (err != nil && key != nil) {
+				m.fatalf("RecoverPublicKey(digest=%x, r=%x, s=%x, v=%d): err=%v key=%v, model: ok=%v %v", digest, r, sv, v, err, key != nil, ok, want)
+			}
+			if err == nil {
+				m.addPub(key, want)
+			}
+		},
 		"ecdh": func(t *rapid.T) {
 			if len(m.privs) == 0 || len(m.pubs) == 0 {
 				t.Skip("need a private and a public key")
